@@ -443,18 +443,32 @@ Definition advertised_ok (t : Z) (nprev : nat) (ob : obs) (pr : list (option pay
     end
   else true.
 
-Fixpoint clock_from (t : Z) (nprev : nat) (steps : list (op * obs * list (option payload))) : option string :=
+(* [jwt]: the history ran with JWT access tokens. Their validation compares whole seconds (token/jwt verifyExp: now <= exp),
+   so an access token is honoured during the second that starts at its expiry instant: a recorded finding with its own tag;
+   anything later, or any other credential, gets the general tag *)
+Definition probe_unexpired (t : Z) (p : option payload) : bool :=
+  match p with Some pl => match pl_exp pl with Some e => Z.leb t e | None => true end | None => true end.
+Definition probe_unexpired_jwt (t : Z) (p : option payload) : bool :=
+  match p with
+  | Some pl => match pl_exp pl with
+               | Some e => Z.leb t e || (ckind_eqb (pl_use pl) KAccess && Z.ltb (t - e) 1000)
+               | None => true end
+  | None => true
+  end.
+
+Fixpoint clock_from (jwt : bool) (t : Z) (nprev : nat) (steps : list (op * obs * list (option payload))) : option string :=
   match steps with
   | [] => None
   | (o, ob, pr) :: rest =>
       let t' := match o with OAdvance ms => (t + ms)%Z | _ => t end in
-      if forallb (fun p => match p with Some pl => match pl_exp pl with Some e => Z.leb t' e | None => true end | None => true end) pr
+      if forallb (probe_unexpired t') pr
       then
-        if advertised_ok t' nprev ob pr then clock_from t' (List.length pr) rest
+        if advertised_ok t' nprev ob pr then clock_from jwt t' (List.length pr) rest
         else Some "advertised_expires_in_differs_from_the_honoured_expiry"
+      else if jwt && forallb (probe_unexpired_jwt t') pr then Some "jwt_access_token_honoured_within_the_second_after_its_expiry"
       else Some "token_reported_active_after_its_expiry"
   end.
-Definition monitor_C07 (c : hcase) : option string := clock_from 0%Z 0 (impl_trace c).
+Definition monitor_C07 (c : hcase) : option string := clock_from (is_jwt_case c) 0%Z 0 (impl_trace c).
 
 (* ------------------------------------------------------------------ C16 *)
 Definition judge_C16 (cfg : config) : judge_t := fun m o ob pr =>
